@@ -862,12 +862,11 @@ def headIs (p : Tok → Bool) : List Tok → Bool
 /-- `try` or `r#try` -/
 def isTryName (t : Tok) : Bool := t.isI kwTry || (t.cls == ['r'] && t.text == 'r' :: '#' :: kwTry)
 
-/-- a keyword that makes the operand of `try!` something other than a postfix chain -/
+/-- a keyword that makes the operand of `try!` something other than a postfix chain (block-like
+expressions `if .. {} else {}`, `match x {}`, `unsafe {}` take a `?` directly) -/
 def isOperandKw (t : Tok) : Bool :=
-  t.isI kwAs || t.isI ['i','f'] || t.isI ['m','a','t','c','h'] || t.isI ['m','o','v','e'] || t.isI kwReturn ||
-  t.isI kwBreak || t.isI kwContinue || t.isI kwLoop || t.isI kwWhile || t.isI kwFor || t.isI ['u','n','s','a','f','e'] ||
-  t.isI ['a','s','y','n','c'] || t.isI kwLet || t.isI kwIn || t.isI ['e','l','s','e'] || t.isI ['y','i','e','l','d'] ||
-  t.isI ['s','t','a','t','i','c'] || t.isI ['c','o','n','s','t']
+  t.isI kwAs || t.isI ['m','o','v','e'] || t.isI kwReturn || t.isI kwBreak || t.isI kwContinue ||
+  t.isI kwLet || t.isI kwIn || t.isI ['y','i','e','l','d'] || t.isI ['s','t','a','t','i','c']
 
 /-- `ts` begins just after the opener of `try!(`: the operand is a postfix chain — at its top level only
 path segments, literals, groups, `.`, `::`, `?`, a `!` after a name, generic arguments after `::<`, and a
@@ -884,6 +883,7 @@ def simpleOperand : Tok → Nat → Nat → List Tok → Bool
     else if a != 0 then simpleOperand t d a ts
     else if (t.cls == ['i'] && !isOperandKw t) || t.cls == ['r'] || (match t.cls with | 'L' :: _ => true | _ => false) then
       simpleOperand t d a ts
+    else if t.isP '.' && (p.isP '.' || headIs (·.isP '.') ts) then false
     else if t.isP '.' || t.isP ':' || t.isP '?' then simpleOperand t d a ts
     else if t.isP '!' && (p.cls == ['i'] || p.cls == ['r']) then simpleOperand t d a ts
     else if t.isP ',' && headIs (·.isClose) ts then simpleOperand t d a ts
